@@ -2001,3 +2001,112 @@ Proof.
     destruct (existsb _ _); [rewrite (fixv_len_qfac (view_env c h) CkQfac _ eq_refl) by (rewrite firstn_length; lia)|rewrite firstn_length]; lia. }
   rewrite Ln. unfold drop. change (Z.to_nat 1) with 1%nat. now rewrite S1.
 Qed.
+
+(* ================================================================== no public setter writes a protected field *)
+Lemma setters_avoid_protected c :
+  forallb (fun ws => forallb (fun i => negb (memZ i (protected_fields c))) ws) (setter_writes_of c) = true.
+Proof. destruct c; vm_compute; reflexivity. Qed.
+
+Lemma setter_write_allowed c w : setter_write c w = true -> allowed_write c w = true.
+Proof.
+  destruct w as [i vs]. cbn [setter_write allowed_write]. intros H. apply andb_prop in H as [H1 H2].
+  rewrite H2, andb_true_r. apply existsb_exists in H1 as (ws & Hin & Hm).
+  pose proof (setters_avoid_protected c) as P. rewrite forallb_forall in P. specialize (P ws Hin).
+  rewrite forallb_forall in P.
+  assert (Hi : In i ws).
+  { clear - Hm. induction ws as [|y ws IH]; [discriminate|]. cbn [memZ] in Hm. apply orb_prop in Hm as [E|E].
+    - apply Z.eqb_eq in E. now left.
+    - right. now apply IH. }
+  exact (P i Hi).
+Qed.
+
+Lemma setter_writes_allowed c ws : Forall (fun w => setter_write c w = true) ws ->
+  Forall (fun w => allowed_write c w = true) ws.
+Proof. intros H. induction H; constructor; [now apply setter_write_allowed|assumption]. Qed.
+
+(* ================================================================== conversions: zooms for every shape *)
+(* whatever convention set_data_shape uses, it stores as many extents as the shape has, and leaves pixdim to
+   set_shape_plain *)
+Lemma set_shape_stored c shape o o2 : set_shape c shape o = COk o2 ->
+  exists stored o', set_shape_plain c stored o' = COk o2 /\ length stored = length shape
+    /\ getf f_pixdim o' = getf f_pixdim o /\ hasf f_pixdim o' = hasf f_pixdim o /\ hasf f_dim o' = hasf f_dim o.
+Proof.
+  unfold set_shape. intros H.
+  assert (Same : set_shape_plain c shape o = COk o2 ->
+                 exists stored o', set_shape_plain c stored o' = COk o2 /\ length stored = length shape
+                   /\ getf f_pixdim o' = getf f_pixdim o /\ hasf f_pixdim o' = hasf f_pixdim o /\ hasf f_dim o' = hasf f_dim o)
+    by (intros E; exists shape, o; repeat split; assumption).
+  destruct (is_nifti1 c); [|now apply Same].
+  destruct (prefix3 shape 163842 1 1) eqn:P.
+  - destruct shape as [|x [|y [|z r]]]; try discriminate. cbn [skipn] in H.
+    exists (27307 :: 1 :: 6 :: r), o. repeat split; try assumption; reflexivity.
+  - destruct shape as [|x [|y [|z r]]]; try (now apply Same).
+    + destruct y as [|p|p]; try (now apply Same). destruct p; now apply Same.
+    + destruct y as [|p|p]; try (now apply Same). destruct p; try (now apply Same).
+      destruct z as [|q|q]; try (now apply Same). destruct q; try (now apply Same).
+      destruct (pow256 (dim_w c) / 2 - 1 <? x); [|now apply Same].
+      destruct (fits_signed 4 x); [|discriminate].
+      exists (-1 :: 1 :: 1 :: r), (setf f_glmin [of_signed 4 x] o). repeat split; try assumption; try reflexivity.
+      * apply getf_setf_other. ids_neq.
+      * apply hasf_setf.
+      * apply hasf_setf.
+Qed.
+
+(* dst.from_header(src, check=False) keeps the zooms (cast to the destination's float width) for EVERY shape,
+   the FreeSurfer conventions included: set_data_shape stores as many extents as the shape has (dim[0] is the
+   rank under every convention), resets pixdim[rank+1:] to 1, and set_zooms then writes pixdim[1:rank+1] *)
+Lemma convert_preserves_zooms_any src dst h h' shape : analyze_family src = true -> analyze_family dst = true ->
+  hdr_fits (layout_of src) h = true ->
+  from_header src dst false h = COk h' -> get_shape src h = COk shape -> shape <> [] ->
+  get_zooms dst h' = map (f_cast (pix_w src) (pix_w dst)) (get_zooms src h).
+Proof.
+  intros Hfs Hfam Hfit H Hs Hne. unfold from_header in H.
+  destruct (negb (dim0_in_scope src h)); [discriminate|].
+  set (obj0 := clean_after_mapping dst (apply_mapping (layout_of src) (layout_of dst) h (default_hdr dst))) in *.
+  destruct (set_dtype src dst (sval 2 (getf f_datatype h)) obj0) as [obj1|] eqn:E1; [|discriminate].
+  rewrite Hs in H. destruct (set_shape dst shape obj1) as [obj2|] eqn:E2; [|discriminate].
+  destruct (set_zooms dst (pix_w src) (get_zooms src h) obj2) as [obj3|] eqn:E3; [|discriminate].
+  inversion H; subst h'. clear H.
+  destruct (set_shape_stored dst shape obj1 obj2 E2) as (stored & o' & Ep2 & Lst & Gp & Hp' & Hd').
+  unfold set_shape_plain in Ep2.
+  destruct (negb (all (fits_signed (dim_w dst)) stored) || (7 <? zlen stored)) eqn:Chk; [discriminate|].
+  cbv zeta in Ep2. injection Ep2 as Eo2. subst obj2.
+  assert (K0 : map fst obj0 = map fid (layout_of dst)) by apply obj_keys_after_mapping.
+  assert (G1 : forall i, i <> f_bitpix -> i <> f_datatype -> getf i obj1 = getf i obj0 /\ hasf i obj1 = hasf i obj0).
+  { intros i N1 N2. unfold set_dtype in E1. destruct (lookup _ (dtcodes_of src)); [|discriminate].
+    destruct (lookup _ (dtcodes_of dst)); [|discriminate]. destruct (_ =? 0); [discriminate|].
+    inversion E1; subst. rewrite !getf_setf_other, !hasf_setf by assumption. now split. }
+  destruct (family_has_dim dst Hfam) as [Md Mp]. destruct (family_has_dim src Hfs) as [_ Mps].
+  assert (Hd : hasf f_dim o' = true) by (rewrite Hd', (proj2 (G1 f_dim ltac:(ids_neq) ltac:(ids_neq))), hasf_keys, K0; exact Md).
+  assert (Hpx : hasf f_pixdim o' = true) by (rewrite Hp', (proj2 (G1 f_pixdim ltac:(ids_neq) ltac:(ids_neq))), hasf_keys, K0; exact Mp).
+  assert (Pne : exists x0 rest, getf f_pixdim o' = x0 :: rest).
+  { rewrite Gp, (proj1 (G1 f_pixdim ltac:(ids_neq) ltac:(ids_neq))).
+    destruct (memZ_find _ _ Mps) as [fs Es]. destruct (memZ_find _ _ Mp) as [fd Ed].
+    assert (E0 : getf f_pixdim obj0 = map (cast_field fs fd) (getf f_pixdim h)).
+    { unfold obj0, clean_after_mapping. destruct (is_nifti dst); rewrite ?getf_setf_other by ids_neq;
+        (rewrite (apply_mapping_get _ _ f_pixdim fs fd Es Ed);
+         [rewrite hasf_keys, (hdr_fits_keys _ _ Hfit), Mps; reflexivity
+         |rewrite (hdr_fits_keys _ _ Hfit); apply (wf_offsets _ (layouts_wf src))
+         |rewrite hasf_keys, default_keys; exact Mp]). }
+    rewrite E0. pose proof (hdr_fits_len _ _ _ _ Hfit Es) as L. pose proof (pix_count_ge4 src fs Es).
+    destruct (getf f_pixdim h) as [|a l]; [simpl in L; lia|]. cbn [map]. eauto. }
+  destruct Pne as (x0 & rest & Ep).
+  unfold set_zooms in E3.
+  assert (Lz7 : zlen stored <= 7) by (apply orb_false_elim in Chk as [_ C]; lia).
+  assert (Nd : forall l, sval (dim_w dst) (zlen stored :: l) = zlen shape).
+  { intros l. unfold sval. cbn [hd]. rewrite (to_signed_id _ _ (dim_w_family dst Hfam)) by (pose proof (zlen_nn stored); lia).
+    unfold zlen. now rewrite Lst. }
+  rewrite !(getf_setf_other f_dim f_pixdim) in E3 by ids_neq. rewrite (getf_setf_same f_dim) in E3 by exact Hd.
+  cbn [put_from] in E3. rewrite Nd in E3.
+  destruct (Z.eqb_spec (zlen (get_zooms src h)) (zlen shape)) as [Lz|]; [|discriminate]. cbn [negb] in E3.
+  destruct (any _ _); [discriminate|]. inversion E3; subst obj3. clear E3.
+  unfold get_zooms at 1.
+  rewrite !(getf_setf_other f_dim f_pixdim) by ids_neq. rewrite (getf_setf_same f_dim) by exact Hd.
+  cbn [put_from]. rewrite Nd.
+  assert (Hn : 0 < zlen shape) by (destruct shape; [congruence|unfold zlen; cbn [length]; lia]).
+  destruct (Z.eqb_spec (zlen shape) 0); [lia|].
+  rewrite (getf_setf_same f_pixdim) by (rewrite !hasf_setf; exact Hpx).
+  rewrite (getf_setf_same f_pixdim) by (rewrite hasf_setf; exact Hpx).
+  rewrite Ep. cbn [firstn app]. cbn [put_from]. apply py_slice1_cons; [|exact Hn].
+  unfold zlen in *. now rewrite map_length.
+Qed.
